@@ -179,6 +179,9 @@ def compile_schema(ast, packages=None):
             sm.abstract.setdefault(a.lower(), [])
         for t in src.get("types", []):
             add_type(sm, t)
+    if ast.get("imports_after_abstract"):
+        for a in ast.get("abstract", []):
+            sm.abstract.setdefault(a.lower(), [])
     for pkg in ast.get("imports", []):
         add_types((packages or {})[pkg])
     add_types(ast)
